@@ -190,6 +190,8 @@ type oInterp struct {
 	// symbolic: arithmetic on floats yields normal-form polynomials (ordersym.go) instead of ⊤
 	symbolic bool
 	maxLoop  int // iterations allowed per loop (default 64)
+	seqGo    bool // goroutines, channels and wait groups under one sequential schedule (ordergo.go)
+	pending  []goThunk
 	// valuation, when set, chooses the branch at comparisons the symbolic domain cannot decide; the
 	// conditions so assumed are collected in pathConds
 	valuation map[string]float64
@@ -592,6 +594,10 @@ func (fr *oFrame) stmt(s ast.Stmt) oCtl {
 				}
 			}
 		}
+	case *ast.GoStmt:
+		return fr.goStmt(s)
+	case *ast.SendStmt:
+		return fr.sendStmt(s)
 	case *ast.DeferStmt:
 		call := s.Call
 		fv := fr.eval(call.Fun)
@@ -690,9 +696,16 @@ func (fr *oFrame) swBody(body []ast.Stmt) oCtl {
 			if bs.Tok == token.CONTINUE && bs.Label == nil {
 				return oContinue
 			}
-			return fr.abort("unsupported branch in switch")
+			if bs.Label != nil && (bs.Tok == token.BREAK || bs.Tok == token.CONTINUE) {
+				fr.pendingLabel, fr.pendingTok = bs.Label.Name, bs.Tok
+				return oLabelled
+			}
+			return fr.abort("unsupported branch in switch (%s)", bs.Tok)
 		}
 		if c := fr.stmt(s); c != oNormal {
+			if c == oBreak {
+				return oNormal // an unlabelled break nested in the clause leaves the switch, not the loop around it
+			}
 			return c
 		}
 	}
@@ -1288,6 +1301,16 @@ func (fr *oFrame) eval(e ast.Expr) oval {
 		return oTop{"deref"}
 	case *ast.UnaryExpr:
 		switch x.Op {
+		case token.ARROW:
+			if ch, ok := fr.eval(x.X).(oChan); ok && fr.it.seqGo {
+				v, _, why := fr.recv(ch)
+				if why != "" {
+					fr.abort("%s at %s", why, fr.it.p.Position(x.Pos()))
+					return oTop{why}
+				}
+				return v
+			}
+			return oTop{"receive"}
 		case token.NOT:
 			if b, ok := fr.eval(x.X).(oBool); ok {
 				return !b
@@ -1359,65 +1382,7 @@ func (fr *oFrame) eval(e ast.Expr) oval {
 			}
 			return oTop{"⊤ in boolean connective: " + showVal(r)}
 		case token.LSS, token.LEQ, token.GTR, token.GEQ, token.EQL, token.NEQ:
-			l, r := fr.eval(x.X), fr.eval(x.Y)
-			lf, lok := l.(oFloat)
-			rf, rok := r.(oFloat)
-			if lok && rok {
-				switch x.Op {
-				case token.LSS:
-					return oBool(lf.r < rf.r)
-				case token.LEQ:
-					return oBool(lf.r <= rf.r)
-				case token.GTR:
-					return oBool(lf.r > rf.r)
-				case token.GEQ:
-					return oBool(lf.r >= rf.r)
-				case token.EQL:
-					return oBool(lf.r == rf.r)
-				case token.NEQ:
-					return oBool(lf.r != rf.r)
-				}
-			}
-			if x.Op == token.EQL || x.Op == token.NEQ {
-				if eq, ok := oEqual(l, r); ok {
-					return oBool(eq == (x.Op == token.EQL))
-				}
-			}
-			li, lok2 := l.(oInt)
-			ri, rok2 := r.(oInt)
-			if lok2 && rok2 {
-				switch x.Op {
-				case token.LSS:
-					return oBool(li < ri)
-				case token.LEQ:
-					return oBool(li <= ri)
-				case token.GTR:
-					return oBool(li > ri)
-				case token.GEQ:
-					return oBool(li >= ri)
-				}
-			}
-			if fr.it.symbolic {
-				if lp, ok := symOf(l); ok {
-					if rp, ok := symOf(r); ok {
-						if b, ok := symCompare(x.Op, lp, rp); ok {
-							return oBool(b)
-						}
-						if fr.it.cmpOracle != nil {
-							if b, ok := fr.it.cmpOracle(x.Op, lp, rp); ok {
-								return oBool(b)
-							}
-						}
-						if fr.it.valuation != nil {
-							if b, ok := symCompareAt(x.Op, lp, rp, fr.it.valuation); ok {
-								fr.it.pathConds = append(fr.it.pathConds, fmt.Sprintf("%s %s %s is %v", lp.canon(), x.Op, rp.canon(), b))
-								return oBool(b)
-							}
-						}
-					}
-				}
-			}
-			return oTop{"comparison of " + showVal(l) + " and " + showVal(r)}
+			return fr.it.compareVals(x.Op, fr.eval(x.X), fr.eval(x.Y))
 		default:
 			lv := fr.eval(x.X)
 			if li, ok := lv.(oInt); ok {
@@ -1837,6 +1802,21 @@ func (fr *oFrame) call(call *ast.CallExpr) []oval {
 							return one(symVal(p.scale(big.NewRat(-1, 1))))
 						}
 						return one(symVal(p))
+					}
+				}
+			case "Copysign":
+				// |x| with the sign of y: both signs from the reference valuation
+				if p, ok := symOf(args[0]); ok && len(args) == 2 {
+					if q, ok := symOf(args[1]); ok {
+						v, okv := symEval(p, fr.it.valuation)
+						w, okw := symEval(q, fr.it.valuation)
+						if okv && okw && v != 0 && w != 0 {
+							fr.it.pathConds = append(fr.it.pathConds, fmt.Sprintf("signs of %s and %s", p.canon(), q.canon()))
+							if (v < 0) != (w < 0) {
+								return one(symVal(p.scale(big.NewRat(-1, 1))))
+							}
+							return one(symVal(p))
+						}
 					}
 				}
 			case "Min", "Max":
@@ -2744,12 +2724,80 @@ func wrapInt(v oval, t types.Type) oval {
 	return v
 }
 
+// compareVals decides an ordering or equality test of two evaluated operands.
+func (it *oInterp) compareVals(op token.Token, l, r oval) oval {
+	lf, lok := l.(oFloat)
+	rf, rok := r.(oFloat)
+	if lok && rok {
+		switch op {
+		case token.LSS:
+			return oBool(lf.r < rf.r)
+		case token.LEQ:
+			return oBool(lf.r <= rf.r)
+		case token.GTR:
+			return oBool(lf.r > rf.r)
+		case token.GEQ:
+			return oBool(lf.r >= rf.r)
+		case token.EQL:
+			return oBool(lf.r == rf.r)
+		case token.NEQ:
+			return oBool(lf.r != rf.r)
+		}
+	}
+	if op == token.EQL || op == token.NEQ {
+		if eq, ok := oEqual(l, r); ok {
+			return oBool(eq == (op == token.EQL))
+		}
+	}
+	li, lok2 := l.(oInt)
+	ri, rok2 := r.(oInt)
+	if lok2 && rok2 {
+		switch op {
+		case token.LSS:
+			return oBool(li < ri)
+		case token.LEQ:
+			return oBool(li <= ri)
+		case token.GTR:
+			return oBool(li > ri)
+		case token.GEQ:
+			return oBool(li >= ri)
+		}
+	}
+	if it.symbolic {
+		if lp, ok := symOf(l); ok {
+			if rp, ok := symOf(r); ok {
+				if b, ok := symCompare(op, lp, rp); ok {
+					return oBool(b)
+				}
+				if it.cmpOracle != nil {
+					if b, ok := it.cmpOracle(op, lp, rp); ok {
+						return oBool(b)
+					}
+				}
+				if it.valuation != nil {
+					if b, ok := symCompareAt(op, lp, rp, it.valuation); ok {
+						it.pathConds = append(it.pathConds, fmt.Sprintf("%s %s %s is %v", lp.canon(), op, rp.canon(), b))
+						return oBool(b)
+					}
+				}
+			}
+		}
+	}
+	return oTop{"comparison of " + showVal(l) + " and " + showVal(r)}
+}
+
 // coreLib: the few standard-library functions every model needs the same way.  sort.Slice and
 // sort.SliceStable order the slice by calling the interpreted less function (insertion sort:
 // stable, which both promise or allow); sort.Sort and sort.Stable go through the value's own
 // Len/Less/Swap.
 func (it *oInterp) coreLib(f *types.Func, recv oval, args []oval) ([]oval, bool) {
 	if out, ok := it.sinkLib(f, recv, args); ok {
+		return out, true
+	}
+	if out, ok := it.goLib(f, recv, args); ok {
+		return out, true
+	}
+	if out, ok := it.atomicLib(f, recv, args); ok {
 		return out, true
 	}
 	if out, ok := it.hexLib(f, args, oIface{opaque: &oOpaque{name: "error", isError: true}}); ok {
@@ -2759,6 +2807,100 @@ func (it *oInterp) coreLib(f *types.Func, recv oval, args []oval) ([]oval, bool)
 		return nil, false
 	}
 	switch f.Name() {
+	case "Search":
+		// binary search as the library does it, asking the interpreted predicate
+		if len(args) == 2 {
+			n, ok := args[0].(oInt)
+			if !ok || n < 0 {
+				return nil, false
+			}
+			lo, hi := int64(0), int64(n)
+			for lo < hi {
+				h := int64(uint64(lo+hi) >> 1)
+				res, why := it.CallValue(args[1], []oval{oInt(h)})
+				if why != "" || len(res) != 1 {
+					return nil, false
+				}
+				b, ok := res[0].(oBool)
+				if !ok {
+					return nil, false
+				}
+				if !bool(b) {
+					lo = h + 1
+				} else {
+					hi = h
+				}
+			}
+			return []oval{oInt(lo)}, true
+		}
+	case "SearchFloat64s", "SearchInts", "SearchStrings":
+		if len(args) == 2 {
+			sl, ok := args[0].(oSlice)
+			if !ok {
+				if _, isNil := args[0].(oNil); !isNil {
+					return nil, false
+				}
+			}
+			lo, hi := 0, sl.length()
+			for lo < hi {
+				h := int(uint(lo+hi) >> 1)
+				var ge oval
+				if f.Name() == "SearchStrings" {
+					a, ok1 := strOf(sl.at(h))
+					b, ok2 := strOf(args[1])
+					if !ok1 || !ok2 {
+						return nil, false
+					}
+					ge = oBool(a >= b)
+				} else {
+					ge = it.compareVals(token.GEQ, sl.at(h), args[1])
+				}
+				b, ok := ge.(oBool)
+				if !ok {
+					return nil, false
+				}
+				if !bool(b) {
+					lo = h + 1
+				} else {
+					hi = h
+				}
+			}
+			return []oval{oInt(lo)}, true
+		}
+	case "Float64s", "Ints":
+		// ascending order of a slice of numbers (insertion sort on decided comparisons)
+		if len(args) == 1 {
+			sl, ok := args[0].(oSlice)
+			if !ok {
+				_, isNil := args[0].(oNil)
+				return nil, isNil
+			}
+			n := sl.length()
+			if n > it.loopLimit() {
+				return nil, false
+			}
+			// decide every needed comparison before moving anything
+			vals := make([]oval, n)
+			for i := range vals {
+				vals[i] = sl.at(i)
+			}
+			for i := 1; i < n; i++ {
+				for j := i; j > 0; j-- {
+					b, ok := it.compareVals(token.LSS, vals[j], vals[j-1]).(oBool)
+					if !ok {
+						return nil, false
+					}
+					if !bool(b) {
+						break
+					}
+					vals[j], vals[j-1] = vals[j-1], vals[j]
+				}
+			}
+			for i, v := range vals {
+				sl.set(i, v)
+			}
+			return nil, true
+		}
 	case "Sort", "Stable":
 		if len(args) == 1 {
 			if why := hostSort(it, args[0]); why == "" {
